@@ -183,13 +183,21 @@ def install(I, AP):
 
     def bitw(name):
         def m(I, a, f):
-            eff.append((name, a[1], a[2]))
-            # fork: the bitwise chiplet rejects non-u32 operands
-            c = I.fork.choose(("chiplet", name), 2, Term("u32pair", repr(a[1]), repr(a[2]))) if I.fork else 0
+            out = AP.new(name)
+            eff.append((name, a[1], a[2], out))
+            # the bitwise chiplet rejects non-u32 operands: decided when an operand is a constant, forked otherwise
+            consts = [x.const_value() if isinstance(x, Poly) else (x if isinstance(x, int) else None) for x in (a[1], a[2])]
+            bad = [x for x, c_ in zip((a[1], a[2]), consts) if c_ is not None and c_ >= 2 ** 32]
+            if bad:
+                c = 1
+            elif all(c_ is not None for c_ in consts):
+                c = 0
+            else:
+                c = I.fork.choose(("chiplet", name), 2, Term("u32pair", repr(a[1]), repr(a[2]))) if I.fork else 0
             if c == 1:
                 I.path.append((Term("u32pair"), 0, "chiplets"))
-                return Agg([Agg([a[1]], "adt", "miden_processor::errors::ExecutionError", "NotU32Value")], "adt", "core::result::Result", "Err")
-            return ok(AP.new(name))
+                return Agg([Agg([bad[0] if bad else a[1]], "adt", "miden_processor::errors::ExecutionError", "NotU32Value")], "adt", "core::result::Result", "Err")
+            return ok(out)
         return m
     add(r"^miden_processor::chiplets::Chiplets::u32and$", bitw("u32and"))
     add(r"^miden_processor::chiplets::Chiplets::u32xor$", bitw("u32xor"))
@@ -240,7 +248,8 @@ def install(I, AP):
     install_field(I)
 
 
-FELT_TERMS = {}      # name of a `felt[<term>]` variable -> the machine-integer term it was built from (Felt::new / Felt::from)
+from . import mirsym as _ms
+FELT_TERMS = _ms.FELT_REGISTRY      # name of a `felt[<term>]` variable -> the machine-integer term it was built from (Felt::new / Felt::from)
 
 
 def install_field(I):
@@ -325,7 +334,17 @@ def run_operation(F, variant, depth_gt16=False, max_paths=64):
     return results
 
 
-def run_sequence(F, ops, max_paths=256, ndeep=16):
+def release_semantics(I):
+    """debug assertions of helper functions removed (what a release build executes)"""
+    def split16(I_, a, f):
+        v = a[0]
+        if isinstance(v, int):
+            return Agg([(v >> 16) & 0xFFFF, v & 0xFFFF], "tuple")
+        return Agg([Term("as_u16", Term(">>", v, 16)), Term("as_u16", v)], "tuple")
+    I.overrides.insert(0, (re.compile(r"^miden_processor::utils::split_u32_into_u16$"), split16))
+
+
+def run_sequence(F, ops, max_paths=256, ndeep=16, release=False):
     """composes the operation model along a sequence of (variant, payload tuple) on a symbolic stack e0..e15 with
     symbolic elements e16.. below; returns list of dict(outcome, guards, stack (top 16 + deep), effects)"""
     fn = F.fn(EXEC_OP)
@@ -338,6 +357,8 @@ def run_sequence(F, ops, max_paths=256, ndeep=16):
         AP = AbstractProcess(I, deep=[Poly.var("e%d" % (16 + i)) for i in range(ndeep)])
         AP.cur = [Poly.var("e%d" % i) for i in range(16)]
         install(I, AP)
+        if release:
+            release_semantics(I)
         holder["AP"] = AP
         return I
 
@@ -348,6 +369,8 @@ def run_sequence(F, ops, max_paths=256, ndeep=16):
         proc.field = lambda name: comps[name]
         for k, (variant, payload) in enumerate(ops):
             AP.begin_row()
+            if variant == "Push":
+                payload = [Poly.const(x) if isinstance(x, int) and not isinstance(x, bool) else x for x in payload]
             op = Agg(list(payload), "adt", opmodel.OPS, variant)
             r = I.call(fn.id, [Ptr([proc], 0), op])
             if isinstance(r, Agg) and r.variant == "Err":
